@@ -90,7 +90,7 @@ Section Lexer.
     if c =? 47 then                                    (* '/' *)
       match r with
       | 47 :: r' => let '(body, rest) := span (fun x => negb (x =? 10)) r' in SSkip (c :: 47 :: body) rest
-      | _ => STok (mk Slash off [c] LNone) r
+      | _ => STok (mk TSlash off [c] LNone) r
       end
     else if c =? 92 then                               (* '\\' *)
       match r with
@@ -100,12 +100,12 @@ Section Lexer.
     else if existsb (N.eqb c) blank_chars then SSkip [c] r
     else if c =? 10 then
       match prev with
-      | Some k => if tk_in k end_set then STok (mk SoftSemi off [c] LNone) r else SSkip [c] r
+      | Some k => if tk_in k end_set then STok (mk TSoftSemi off [c] LNone) r else SSkip [c] r
       | None => SSkip [c] r
       end
     else if c =? 34 then
       match string_body r [] [] with
-      | StrOk v raw rest => STok (mk StringLiteral off (c :: raw) (LStr v)) rest
+      | StrOk v raw rest => STok (mk TStringLiteral off (c :: raw) (LStr v)) rest
       | StrBadEscape raw rest => SErr (mkLexError EInvalidEscape []) (c :: raw) rest
       | StrUnterminated raw =>
         SErr (mkLexError EUnterminated [(off, 0); (off, byte_len (c :: raw))]) (c :: raw) []
@@ -116,16 +116,16 @@ Section Lexer.
       | 46 :: d :: rest' =>
         if ascii_digit d then
           let '(fs, rest'') := span ascii_digit rest' in
-          STok (mk Number off ((c :: ds) ++ 46 :: d :: fs) (LNum (literal_float (c :: ds) (d :: fs)))) rest''
-        else STok (mk Number off (c :: ds) (LNum (literal_float (c :: ds) []))) rest
-      | _ => STok (mk Number off (c :: ds) (LNum (literal_float (c :: ds) []))) rest
+          STok (mk TNumber off ((c :: ds) ++ 46 :: d :: fs) (LNum (literal_float (c :: ds) (d :: fs)))) rest''
+        else STok (mk TNumber off (c :: ds) (LNum (literal_float (c :: ds) []))) rest
+      | _ => STok (mk TNumber off (c :: ds) (LNum (literal_float (c :: ds) []))) rest
       end
     else if is_alnum c then
       let '(cs, rest) := span ident_char r in
       let lexeme := c :: cs in
       match assoc_text lexeme keywords with
       | Some k => STok (mk k off lexeme LNone) rest
-      | None => STok (mk Identifier off lexeme LNone) rest
+      | None => STok (mk TIdentifier off lexeme LNone) rest
       end
     else SErr (mkLexError EUnknownSymbol [(off, utf8_len c)]) [c] r
     end end.
@@ -138,7 +138,7 @@ Section Lexer.
            (toks : list token) (errs : list lex_error)  (* both reversed *)
     : outcome (list token * list lex_error) :=
     match s with
-    | [] => Ok (rev (mkToken Eof last 0 eof_lexeme LNone :: toks), rev errs)
+    | [] => Ok (rev (mkToken TEof last 0 eof_lexeme LNone :: toks), rev errs)
     | c :: r =>
       match fuel with
       | O => OutOfFuel
